@@ -1228,3 +1228,181 @@ M("c04-max-keys-unclamped", ["C04"], {"C04": ["R04.6"]}, "gofakes3.go",
 	page.MaxKeys = maxKeys
 
 	if _, page.HasMarker = query["marker"]""")
+
+# ---------------------------------------------------------------- C08
+M("c08-keylimit-after-store", ["C08"], {"C08": ["R08.1", "R08.5"]}, "gofakes3.go",
+  """	if len(object) > KeySizeLimit {
+		return ResourceError(ErrKeyTooLong, object)
+	}
+
+	var md5Base64 string""", """	var md5Base64 string""", more=[{"file": "gofakes3.go", "old": """	if result.VersionID != "" {
+		g.log.Print(LogInfo, "CREATED VERSION:", bucket, object, result.VersionID)""", "new": """	if len(object) > KeySizeLimit {
+		return ResourceError(ErrKeyTooLong, object)
+	}
+	if result.VersionID != "" {
+		g.log.Print(LogInfo, "CREATED VERSION:", bucket, object, result.VersionID)"""}])
+
+M("c08-mem-lock-before-readall", ["C08"], {"C08": ["R08.2"]}, "backend/s3mem/backend.go",
+  """	bts, err := gofakes3.ReadAll(input, size)
+	if err != nil {
+		return result, err
+	}
+
+	err = gofakes3.MergeMetadata(db, bucketName, objectName, meta)
+	if err != nil {
+		return result, err
+	}
+
+	db.lock.Lock()
+	defer db.lock.Unlock()
+
+	bucket := db.buckets[bucketName]
+	if bucket == nil {
+		return result, gofakes3.BucketNotFound(bucketName)
+	}
+
+	hash := md5.Sum(bts)
+""", """	err = gofakes3.MergeMetadata(db, bucketName, objectName, meta)
+	if err != nil {
+		return result, err
+	}
+
+	db.lock.Lock()
+	defer db.lock.Unlock()
+
+	bucket := db.buckets[bucketName]
+	if bucket == nil {
+		return result, gofakes3.BucketNotFound(bucketName)
+	}
+	placeholder := &bucketData{name: objectName, metadata: meta, lastModified: db.timeSource.Now()}
+	bucket.put(objectName, placeholder)
+
+	bts, err := gofakes3.ReadAll(input, size)
+	if err != nil {
+		return result, err
+	}
+
+	hash := md5.Sum(bts)
+""")
+
+M("c08-bolt-readall-size-from-len", ["C08"], {"C08": ["R08.3"]}, "backend/s3bolt/backend.go",
+  """	bts, err := gofakes3.ReadAll(input, size)
+	if err != nil {
+		return result, err
+	}
+""", """	bts, err := io.ReadAll(input)
+	if err != nil {
+		return result, err
+	}
+	_ = size
+""")
+
+M("c08-readall-tolerates-trailing-bytes", ["C08"], {"C08": ["R08.3"]}, "util.go",
+  """	if extra, err := ioutil.ReadAll(r); err != nil {
+		return nil, err
+	} else if len(extra) > 0 {
+		return nil, ErrIncompleteBody
+	}
+""", """	if _, err := io.Copy(ioutil.Discard, r); err != nil {
+		return nil, err
+	}
+""")
+
+M("c08-digest-check-only-when-sum-set", ["C08"], {"C08": ["R08.4"]}, "hash.go",
+  """			if h.expected != nil && !bytes.Equal(h.sum, h.expected) {""",
+  """			if h.expected != nil && n > 0 && !bytes.Equal(h.sum, h.expected) {""")
+
+M("c08-part-digest-not-wired", ["C08"], {"C08": ["R08.4"]}, "gofakes3.go",
+  """			rdr, err = newHashingReader(rdr, md5Base64)
+			if err != nil {
+				return err
+			}""", """			if _, err = newHashingReader(rdr, md5Base64); err != nil {
+				return err
+			}""")
+
+M("c08-hash-before-read-count", ["C08"], {"C08": ["R08.4"]}, "hash.go",
+  """		wn, _ := h.hash.Write(p[:n]) // Hash.Write never returns an error.""",
+  """		wn, _ := h.hash.Write(p[:len(p)]) // Hash.Write never returns an error.
+		wn = n""")
+
+M("c08-metadata-limit-off-by-factor", ["C08"], {"C08": ["R08.5"]}, "gofakes3.go",
+  """	if sizeLimit > 0 && metadataSize(meta) > sizeLimit {""", """	if sizeLimit > 0 && len(meta) > sizeLimit {""")
+
+M("c08-initiate-ignores-metadata-error", ["C08"], {"C08": ["R08.5"]}, "gofakes3.go",
+  """	meta, err := metadataHeaders(r.Header, g.timeSource.Now(), g.metadataSizeLimit)
+	if err != nil {
+		return err
+	}
+	if err := g.ensureBucketExists(bucket); err != nil {
+		return err
+	}
+
+	uploadID, err := g.uploader.CreateMultipartUpload(bucket, object, meta)""", """	meta, _ := metadataHeaders(r.Header, g.timeSource.Now(), g.metadataSizeLimit)
+	if err := g.ensureBucketExists(bucket); err != nil {
+		return err
+	}
+
+	uploadID, err := g.uploader.CreateMultipartUpload(bucket, object, meta)""")
+
+M("c08-browser-upload-no-key-limit", ["C08"], {"C08": ["R08.5"]}, "gofakes3.go",
+  """	if len(key) > KeySizeLimit {
+		return ResourceError(ErrKeyTooLong, key)
+	}
+
+	// FIXME: how does Content-MD5""", """	// FIXME: how does Content-MD5""")
+
+# ---------------------------------------------------------------- C12
+REVERT("f12-revert-chunk-accounting", ["C12"], {"C12": ["R12.1"]}, "0008-fix-chunked-reader-accounts-for-the-bytes-actually-r.patch")
+REVERT("f11-revert-declared-length-alloc-c12", ["C12"], {"C12": ["R09.1a"]}, "0012-fix-a-negative-or-absurd-declared-length-cannot-pani.patch")
+
+M("c12-branch2-counts-requested", ["C12"], {"C12": ["R12.1"]}, "chunk.go",
+  """			innerN, err := r.inner.Read(p[n : n+r.chunkRemain])
+			r.chunkRemain -= innerN
+			n += innerN
+			sizeToRead -= innerN""", """			innerN, err := r.inner.Read(p[n : n+r.chunkRemain])
+			n += innerN
+			sizeToRead -= r.chunkRemain
+			r.chunkRemain -= innerN""")
+
+M("c12-reads-across-chunk-boundary", ["C12"], {"C12": ["R12.1", "R12.4"]}, "chunk.go",
+  """		} else if r.chunkRemain > 0 {
+			// read until this chunk ends
+			innerN, err := r.inner.Read(p[n : n+r.chunkRemain])""", """		} else if r.chunkRemain > 0 {
+			// read until this chunk ends
+			innerN, err := r.inner.Read(p[n : n+sizeToRead])""")
+
+M("c12-header-parse-error-ignored", ["C12"], {"C12": ["R12.2"]}, "chunk.go",
+  """			_, err = fmt.Fscanf(r.inner, "%x;", &chunkSize)
+			if err != nil {
+				return n, err
+			}
+			r.chunkRemain = chunkSize""", """			_, err = fmt.Fscanf(r.inner, "%x;", &chunkSize)
+			if err != nil && err != io.EOF {
+				return n, err
+			}
+			r.chunkRemain = chunkSize""")
+
+M("c12-signature-skip-error-dropped", ["C12"], {"C12": ["R12.2"]}, "chunk.go",
+  """			_, err = io.CopyN(ioutil.Discard, r.inner, 16+64+2) // "chunk-signature=" + sizeOfHash + "\\r\\n"
+			if err != nil {
+				return n, err
+			}""", """			io.CopyN(ioutil.Discard, r.inner, 16+64+2) // "chunk-signature=" + sizeOfHash + "\\r\\n\"""")
+
+M("c12-detection-lowercase-header-key", ["C12"], {"C12": ["R12.3"]}, "gofakes3.go",
+  """	if sha, ok := meta["X-Amz-Content-Sha256"]; ok && sha == "STREAMING-AWS4-HMAC-SHA256-PAYLOAD" {""",
+  """	if sha, ok := meta["x-amz-content-sha256"]; ok && sha == "STREAMING-AWS4-HMAC-SHA256-PAYLOAD" {""")
+
+M("c12-decoded-length-ignored", ["C12"], {"C12": ["R12.3"]}, "gofakes3.go",
+  """		reader = newChunkedReader(r.Body)
+		size, err = strconv.ParseInt(meta["X-Amz-Decoded-Content-Length"], 10, 64)
+		if err != nil || size < 0 {
+			w.WriteHeader(http.StatusBadRequest) // XXX: no code for this, according to s3tests
+			return nil
+		}""", """		reader = newChunkedReader(r.Body)
+		if dl, derr := strconv.ParseInt(meta["X-Amz-Decoded-Content-Length"], 10, 64); derr == nil && dl < size {
+			size = dl
+		}""")
+
+M("c12-decoder-always-on-for-sha-header", ["C12"], {"C12": ["R12.3"]}, "gofakes3.go",
+  """	if sha, ok := meta["X-Amz-Content-Sha256"]; ok && sha == "STREAMING-AWS4-HMAC-SHA256-PAYLOAD" {""",
+  """	if sha, ok := meta["X-Amz-Content-Sha256"]; ok && strings.HasPrefix(sha, "STREAMING-") {""")
